@@ -762,11 +762,19 @@ def build_function(repo, d, unit, em, report, vac=False, stub_of=None):
         if n:
             fired[r] = fired.get(r, 0) + n
     for r in d['rules']:
+        # `RULE?`: the idiom is desugared IF PRESENT.  Only for rules that re-spell an expression without dropping or
+        # assuming anything: when such a rule does not fire the text reaches Verus verbatim, which either accepts it
+        # or rejects it (undecided) - so a change that removes the idiom is still verified against the contract
+        # instead of being lost as an anchor.  Shape guards stay with `nloops:` and the must-fire rules.
+        optional = r.endswith('?')
+        r = r.rstrip('?')
         fn = find_rule(r)
         if fn is None:
             raise SystemExit('template error: unknown rule ' + r)
         body, n = fn(body, ctx)
         if n == 0:
+            if optional:
+                continue
             raise LostAnchor('rule %s expected in %s::%s did not match' % (r, d['file'], d['name']))
         fired[r] = fired.get(r, 0) + n
     head, params, ret, where = ctx['head'], ctx['params'], ctx['ret'], ctx['where']
